@@ -22,6 +22,27 @@ func genArch(c *Ctx, r *RNG, maxBlocks int, bigOK bool) Arch {
 		g.maxData = 0 // varint-width boundary sizes (16 KiB)
 	}
 	blks := genBlocks(r, nb, g)
+	if maxBlocks > 12 {
+		// large archives (thorough tier): index buckets beyond sort.Sort's insertion-sort threshold, where
+		// the order of equal digests is unspecified -- so no two blocks share a digest here
+		c.Count("archive:large-distinct-digests")
+		if r.Chance(30) {
+			g.big = true // one section around the 2^21 varint boundary
+		}
+		nb = 13 + r.Intn(maxBlocks-12)
+		blks = nil
+		seenD := map[string]bool{}
+		for len(blks) < nb {
+			b := genBlock(r, g)
+			g.big = false
+			dm, _ := mh.Decode(b.Cid.Hash())
+			if seenD[string(dm.Digest)] {
+				continue
+			}
+			seenD[string(dm.Digest)] = true
+			blks = append(blks, b)
+		}
+	}
 	var a Arch
 	a.blks = blks
 	a.roots = genRoots(r, blks, true)
@@ -330,6 +351,16 @@ func init() {
 			c19Archive(c, r, a, archs[(i+1)%n], archs[(i+2)%n])
 			if i%5 == 0 {
 				c19Malformed(c, r, a)
+			}
+		}
+		if c.Thorough {
+			m := 12
+			large := make([]Arch, m)
+			for i := range large {
+				large[i] = genArch(c, c.R.Fork(), 40, true)
+			}
+			for i, a := range large {
+				c19Archive(c, c.R.Fork(), a, large[(i+1)%m], archs[i%n])
 			}
 		}
 	})
